@@ -14,6 +14,8 @@ Ideal AES-GCM (also under the fixed per-connection nonce the code uses) and BLS 
 assumptions, not theorems.
 -/
 import DosModel.Proofs.P2PSym
+import DosModel.Proofs.ConnSym
+import DosModel.Model.ConnTableCfg
 import DosModel.Gen.P2PFlow
 
 namespace Dos.Props.C16
@@ -277,5 +279,108 @@ example : (recvAll (theConn true false) [.raw 1, pack 7 1 [] m0 0 false, .raw 2,
   decide
 example : (recvAll demoConn [.raw 1, pack 7 1 [] m0 0 false, .raw 2, pack 7 1 [] m2 1 false]).out =
     [delivered [] m0 0 false, delivered [] m2 1 false] := by decide
+
+/-! ### 5. across connections
+
+`Model/ConnSym.lean`: the server-level connection state machine (`Model/ConnTable.lean`: dial, accept, the two
+tables, connection end, DisConnectTo, restart — every connection with the session key and the two signing keys it
+got when it was made) together with the receiving pipeline of BOTH ends of EVERY connection.  The man in the
+middle may put on any connection, at any time, any frame that either end of ANY connection — past or present,
+between the same two nodes or not — ever packed (`AdvCan.seen`: record on one connection, inject into another, in
+either direction), plus everything the single-connection theorems allow.  Quantified over every history of
+connection-table events, packed messages and such arrivals. -/
+
+open Dos.ConnSym in
+/-- regenerated facts: `newClient` draws the key pair of a connection itself (no key material is handed to it
+by `Listen` / `handleCallReq`), `sendID` presents it, `receiveID` derives the AES key and GCM nonce from it and
+the presented key — the model allocates fresh keys per connection exactly when this holds. -/
+theorem c16_keys_per_connection : ConnTable.Cfg.code.keyPerConn = true := by decide
+
+open Dos.ConnSym in
+/-- **5a. every connection has its own keys**: in every history, two different connections have different
+session keys, and the two ends of a connection sign with different keys. -/
+theorem keys_differ_across_connections (ideal : Nat → Bool) (evs : List ConnTable.Ev) (c c' : Nat) :
+    let s := ConnTable.run ConnTable.Cfg.code (ConnTable.init ideal) evs
+    c < s.nconn → c' < s.nconn → c ≠ c' →
+      (s.conns c).key ≠ (s.conns c').key ∧ (s.conns c).skD ≠ (s.conns c).skA := by
+  intro s hc hc' hne
+  have hK : ConnTable.KeyInv s := by
+    have : ∀ (evs : List ConnTable.Ev) (s0 : ConnTable.Net), ConnTable.KeyInv s0 →
+        ConnTable.KeyInv (ConnTable.run ConnTable.Cfg.code s0 evs) := by
+      intro evs
+      induction evs with
+      | nil => intro s0 h; exact h
+      | cons e es ih => intro s0 h; exact ih _ (ConnTable.step_keyInv _ c16_keys_per_connection h e)
+    exact this evs _ (ConnTable.KeyInv.init ideal)
+  have k1 := hK.keys c hc
+  have k2 := hK.keys c' hc'
+  rw [k1.1, k2.1, k1.2.1, k1.2.2]
+  exact ⟨by omega, by omega⟩
+
+open Dos.ConnSym in
+/-- **5b. delivered ⇒ sent by the remote endpoint ON THAT CONNECTION**, whatever is replayed from wherever: in
+every valid history, every message delivered at an end of connection `c` is the delivery of a frame that the OTHER
+end of the SAME connection packed. -/
+theorem delivered_on_its_connection (ideal : Nat → Bool) (ca dr : Bool) (evs : List SEv)
+    (hv : Valid ConnTable.Cfg.code ca dr { net := ConnTable.init ideal } evs) (c : Nat) (d : Bool) (dl : Delivery)
+    (h : dl ∈ ((srun ConnTable.Cfg.code ca dr { net := ConnTable.init ideal } evs).rs c d).out) :
+    ∃ f, f ∈ (srun ConnTable.Cfg.code ca dr { net := ConnTable.init ideal } evs).sent c (!d) ∧
+      recvFrame (view ca dr ((srun ConnTable.Cfg.code ca dr { net := ConnTable.init ideal } evs).net.conns c) d) f = .deliver dl :=
+  (srun_inv _ c16_keys_per_connection ca dr (SInv.init ca dr ideal) evs hv).out c d dl h
+
+open Dos.ConnSym in
+/-- **5c. cross-connection replay / injection is rejected**: in every valid history, a frame that an end of
+connection `c` packed is an ERROR outcome (the AEAD does not open) at either end of any other connection `c'` —
+no delivery, no panic. -/
+theorem cross_connection_replay_rejected (ideal : Nat → Bool) (ca dr : Bool) (evs : List SEv)
+    (hv : Valid ConnTable.Cfg.code ca dr { net := ConnTable.init ideal } evs) (c c' : Nat) (d d' : Bool) (f : Frame) :
+    let s := srun ConnTable.Cfg.code ca dr { net := ConnTable.init ideal } evs
+    f ∈ s.sent c d → c' < s.net.nconn → c' ≠ c →
+      recvFrame (view ca dr (s.net.conns c') d') f = .err .openFail := by
+  intro s hf hc' hne
+  have hS := srun_inv _ c16_keys_per_connection ca dr (SInv.init ca dr ideal) evs hv
+  obtain ⟨hc, m, nonce, reply, hfe⟩ := hS.sent c d f hf
+  have k1 := (hS.keys.keys c hc).1
+  have k2 := (hS.keys.keys c' hc').1
+  have hk : (s.net.conns c).key ≠ (s.net.conns c').key := by rw [k1, k2]; omega
+  rw [hfe]
+  simp only [recvFrame, pack, view]
+  exact if_pos hk
+
+open Dos.ConnSym in
+/-- what 5 rests on: were a connection's keys NOT its own (the node's long-term key pair wired into every
+connection: same session key and nonce for every connection between two nodes, same signing key), a frame recorded
+on connection 0 and injected into connection 1 between the same nodes would be delivered there. -/
+theorem static_keys_admit_cross_connection_replay :
+    let cfg := { ConnTable.Cfg.good with keyPerConn := false }
+    let s0 := srun cfg true true {} [.tbl (.request 0 1 (some 1)), .pack 0 true ⟨0, [7]⟩ 0 false, .tbl (.cut 0),
+                                      .tbl (.procRm 0 0), .tbl (.procRm 1 0), .tbl (.request 0 1 (some 1))]
+    (s0.sent 0 true).length = 1 ∧
+    ∀ f ∈ s0.sent 0 true, ((sstep cfg true true s0 (.wire 1 false f)).rs 1 false).out = [delivered [] ⟨0, [7]⟩ 0 false] := by
+  decide
+
+/-! non-vacuity of section 5: node 0 sends on connection 0, the connection is cut, it sends on connection 1, and
+the man in the middle injects the frame of connection 0 into connection 1 (towards node 1) and reflects it to node 0 -/
+def crossDemo : List Dos.ConnSym.SEv :=
+  [.tbl (.request 0 1 (some 1)), .pack 0 true ⟨0, [7]⟩ 0 false,
+   .wire 0 false (pack 2 1 [] ⟨0, [7]⟩ 0 false),
+   .tbl (.cut 0), .tbl (.procRm 0 0), .tbl (.procRm 1 0),
+   .tbl (.request 0 1 (some 1)), .pack 1 true ⟨2, [9]⟩ 1 false,
+   .wire 1 false (pack 2 1 [] ⟨0, [7]⟩ 0 false),      -- the recorded frame of connection 0, into connection 1
+   .wire 1 true (pack 2 1 [] ⟨0, [7]⟩ 0 false),       -- … and to the other end
+   .wire 1 false (pack 5 4 [] ⟨2, [9]⟩ 1 false)]
+
+example : Dos.ConnSym.Valid ConnTable.Cfg.code true true {} crossDemo := by
+  refine ⟨trivial, trivial, ?_, trivial, trivial, trivial, trivial, trivial, ?_, ?_, ?_, trivial⟩
+  · exact .seen 0 true (by decide) (by decide)
+  · exact .seen 0 true (by decide) (by decide)
+  · exact .seen 0 true (by decide) (by decide)
+  · exact .seen 1 true (by decide) (by decide)
+example : ((Dos.ConnSym.srun ConnTable.Cfg.code true true {} crossDemo).rs 0 false).out = [delivered [] ⟨0, [7]⟩ 0 false] := by decide
+example : ((Dos.ConnSym.srun ConnTable.Cfg.code true true {} crossDemo).rs 1 false).out = [delivered [] ⟨2, [9]⟩ 1 false] ∧
+    ((Dos.ConnSym.srun ConnTable.Cfg.code true true {} crossDemo).rs 1 false).errs = 1 ∧
+    ((Dos.ConnSym.srun ConnTable.Cfg.code true true {} crossDemo).rs 1 true).out = [] := by decide
+example : ((Dos.ConnSym.srun ConnTable.Cfg.code true true {} crossDemo).net.conns 0).key = 1 ∧
+    ((Dos.ConnSym.srun ConnTable.Cfg.code true true {} crossDemo).net.conns 1).key = 4 := by decide
 
 end Dos.Props.C16
